@@ -117,7 +117,7 @@ def corpus_items(run, n, sd):
 
     rcsg.generate_command_stream = wrapper     # inherited by the forked children; parent never compiles
     try:
-        jobs = corpus.all_singles(sd) + corpus.draw(n, sd)
+        jobs = corpus.all_singles(sd, tier=run.tier) + corpus.draw(n, sd)
         rs = vela_run.compile_many(jobs, extractor=extractor)
     finally:
         rcsg.generate_command_stream = real
@@ -150,6 +150,13 @@ def main(tier):
     if bad["status"] != "invariant":
         raise MachineryError("CmdGen negative control (NBanks = 2) did not violate the invariant")
     run.add_mc("CmdGen(NBanks=2 control)", bad)
+    # histories of ANY length: the invariant is inductive (TLC enumerates every state satisfying it and checks all successors)
+    ind = tlc.must_ok(tlc.run("CmdGen", "CmdGen_Ind.cfg" if tier == "quick" else "CmdGen_IndT.cfg", workers=8), "CmdGen induction step")
+    run.add_mc("CmdGen(induction step, unbounded histories)", ind)
+    indbad = tlc.run("CmdGen", "CmdGen_IndBroken.cfg", workers=8)
+    if indbad["status"] != "invariant":
+        raise MachineryError("CmdGen induction-step control (NBanks = 2) is inductive?! %s" % indbad["status"])
+    run.add_mc("CmdGen(induction step, NBanks=2 control)", indbad)
     items = api_items(run, 300 if tier == "quick" else 5000, sd,
                       ["ethos-u55-128", "ethos-u65-512"] if tier == "quick" else ACCELS)
     items += corpus_items(run, 40 if tier == "quick" else 800, sd)
